@@ -11,7 +11,7 @@ import (
 // C18 — proxy tunnelling and TLS are applied on every dial path.
 
 func init() {
-	register(&PropDef{ID: "C16", Num: 16, Gen: genC16, Oracle: oracleC16, Level: "fault_enumeration"})
+	register(&PropDef{ID: "C16", Num: 16, Gen: genC16, Oracle: oracleC16, Level: "fault_enumeration", Sweep: sweepC16, SweepN: 100})
 	register(&PropDef{ID: "C18", Num: 18, Gen: genC18, Oracle: oracleC18, Level: "exploration"})
 }
 
@@ -509,4 +509,31 @@ func clipN(s string, n int) string {
 		return s[:n] + "…"
 	}
 	return s
+}
+
+// sweepC16: one dial path per 100 runs; run k puts a fault (k even: error /
+// timeout / EOF / short write by k mod 8; k odd: hang with a time-out set) at
+// transport operation k / 2 of the connection the client obtained.
+func sweepC16(r *PRNG, k, S int) *Scenario {
+	var scn *Scenario
+	for {
+		scn = genC16(r, "thorough")
+		if scn.Class == "client-fault" {
+			break
+		}
+	}
+	d := &scn.HS.Dials[0]
+	cc := &scn.Net.Conns[0]
+	if k%2 == 0 {
+		scn.Class = "client-fault-sweep"
+		cc.FaultsA = []OpFault{{Side: "a", K: k / 2, Kind: hsFaultKinds[(k/2)%4], N: 10}}
+	} else {
+		scn.Class = "client-stall-sweep"
+		cc.FaultsA = []OpFault{{Side: "a", K: k / 2, Kind: fHang}}
+		d.IdleMs = 0
+		if d.HsTimeoutMs == 0 {
+			d.HsTimeoutMs = 5000
+		}
+	}
+	return scn
 }
